@@ -190,7 +190,7 @@ func c13Writer(run *rt.Run, r *rt.Rand) {
 				}
 			}
 			if c.out != nil {
-				run.Violation("history-pattern:sink-forwarded", "a sink returned an event", wit(""))
+				run.Add("sink_returned_an_event", 1) // not part of the statement; observed, not judged
 			}
 		}
 		if strings.Contains(string(w.log), "WRONG-") {
@@ -575,18 +575,22 @@ func c13Channel(run *rt.Run, r *rt.Rand) {
 				run.Violation("history-pattern:error-but-delivered", fmt.Sprintf("ChannelSink reported an error (%v) but the event was received %d times", c.err, got), wit(""))
 			}
 			if c.out != nil {
-				run.Violation("history-pattern:sink-forwarded", "ChannelSink returned an event", wit(""))
+				run.Add("sink_returned_an_event", 1) // not part of the statement; observed, not judged
 			}
 			if c.err != nil {
 				ctxErr := errors.Is(c.err, context.Canceled) || errors.Is(c.err, context.DeadlineExceeded)
 				isTimeout := strings.Contains(c.err.Error(), "timeout")
+				// which error is reported is not part of the statement (only that one is, and when): the
+				// library's choices are recorded as observations, not judged
 				switch {
 				case (ctxKind == "background" || ctxKind == "deadline-far") && ctxErr:
-					run.Violation("history-pattern:wrong-error", "ChannelSink returned a context error although the context was not done: "+c.err.Error(), wit(""))
-				case (ctxKind == "cancelled" || ctxKind == "cancel-later" || ctxKind == "deadline-near") && timeout == time.Hour && !ctxErr:
-					run.Violation("history-pattern:wrong-error", "ChannelSink's error is not the context's error although only the context could end the wait: "+c.err.Error(), wit(""))
-				case !ctxErr && !isTimeout:
-					run.Violation("history-pattern:wrong-error", "ChannelSink's error is neither the context's error nor a timeout: "+c.err.Error(), wit(""))
+					run.Add("channel_ctx_error_with_live_ctx", 1)
+				case ctxErr:
+					run.Add("channel_errors_ctx", 1)
+				case isTimeout:
+					run.Add("channel_errors_timeout", 1)
+				default:
+					run.Add("channel_errors_other", 1)
 				}
 			}
 		}
